@@ -133,6 +133,8 @@ class Gen(object):
             # no host stems (any-byte profile): any stem-prefix can anchor a rule
             return b"".join(st[: self.rng.randint(1, len(st))]) if st else None
         cut = self.rng.choice(hosts + [hosts[-1]] + ([hosts[-1] + 1] if len(st) > hosts[-1] + 1 else []))
+        if self.rng.random() < 0.08:
+            cut = 0  # a rule anchored on the scheme stem alone (a top-level node of the trie)
         return b"".join(st[: cut + 1])
 
     def lru(self):
@@ -272,7 +274,7 @@ class Gen(object):
             return {"op": "create_many", "base": enc(b"s:http|h:com|h:many|"), "count": r.choice([254, 255, 256, 257, 300])}
         if k == "reopen" and self.prop in ("C12", "C11", "C06", "C04") and r.random() < 0.12:
             return {"op": "reopen_older_release"}
-        if k == "create_we" and self.prop == "C09" and r.random() < 0.06:
+        if k == "create_we" and self.prop in ("C09", "C10") and r.random() < 0.06:
             # a webentity with many prefixes (tokens must carry prefix indexes of two digits)
             base = r.choice(self.pool)
             st = stems(base)
